@@ -96,4 +96,28 @@ func init() {
 		Intercepted: append([]string{"(node_state.DiskState).Usage in the decision harness (replaced by its verified contract)"}, fleetIntercepted...),
 		Outside:     []string{"more than 3 replicas", "more than one failing call"},
 	})
+	reg(&property{
+		ID: "C04",
+		Obligations: []obligation{
+			{Pkg: "app", Entry: "H_C04_update_active", Witnesses: []string{"C04.completed", "C04.grew", "C04.shrank", "C04.evicted"},
+				Quick:    tierCfg{Params: map[string]int{"replicas": 2, "max_w": 1, "faults": 0, "symmetry": 1}},
+				Thorough: tierCfg{Params: map[string]int{"replicas": 2, "max_w": 2, "faults": 0, "symmetry": 0, "cascade": 1}}},
+			{Pkg: "app", Entry: "H_C04_update_active_faults", Witnesses: []string{"C04.evicted"},
+				Quick:    tierCfg{Params: map[string]int{"replicas": 1, "max_w": 1, "faults": 1}},
+				Thorough: tierCfg{Params: map[string]int{"replicas": 2, "max_w": 1, "faults": 1, "symmetry": 1}}},
+			{Pkg: "app", Entry: "H_C04_set_recovery", Witnesses: []string{"C04.recovery.marked", "C04.recovery.failed"},
+				Quick: tierCfg{Params: map[string]int{"dcs_faults": 1}}, Thorough: tierCfg{Params: map[string]int{"dcs_faults": 2}}},
+		},
+		Encoded: []string{"(*app.App).updateActiveNodes", "(*app.App).calcActiveNodes", "(*app.App).calcActiveNodesChanges", "(*app.App).adjustSemiSyncOnMaster",
+			"(*app.App).enableSemiSyncOnSlave", "(*app.App).disableSemiSyncOnSlave", "(*app.App).canShrinkActiveNodes", "(*app.App).SetRecovery", "app.calcLagBytes",
+			"(*mysql.SwitchHelper).GetRequiredWaitSlaveCount"},
+		Assumptions: append([]string{
+			"pre-state: master m healthy and writable holding GTID {t0}; each replica in one of 10 classes (running ⊆ / diverged / ahead-by-own-uuid / marked / download-lagging with IO moving / stalled / unreachable / not a replica / stopped / error), semi-sync flag arbitrary, old published list = m + arbitrary subset; master semi-sync flag and wait count arbitrary (0..2); both adjust orders; w in 1..max_w",
+			"the manager's cluster state is produced by the real getClusterStateFromDB on the ground truth (no staleness inside this obligation); health records equal it except for unreachable replicas (record good or bad, failing timer arbitrary)",
+			"checkpoint assertions after every mutating MySQL statement and coordination write = crash or failing call at any point; fault obligation: one failing or applied-but-reply-lost MySQL call",
+			"reading decision: 'not replicating beyond the inactivation delay' is only asserted for unreachable replicas with a bad health record (an unreachable replica with a good record may be replicating fine)",
+		}, fleetAssume...),
+		Intercepted: fleetIntercepted,
+		Outside:     []string{"more than 2 replicas (+1 cascade)", "optimisation controller effects beyond the registry write", "maintenance / switch pending (exempt by the statement)", "SemiSync=false configuration"},
+	})
 }
